@@ -19,7 +19,8 @@ TECHNIQUE = ("runtime monitoring: every graph returned by create_nxgraph / conne
              "multi-island networks x random option vectors is compared with a table-loop reference model (union-find, Dijkstra)")
 CASES = {"quick": 800, "thorough": 25000}
 BUDGET = {"quick": 60, "thorough": 1200}
-GRAPHS_PER_CASE = 4
+GRAPHS_PER_CASE = 3
+N_VARIANTS = 3
 FLOORS = {"quick": {"nontrivial": 350,
                     "tags": {"respect_switches": 300, "ignore_switches": 300, "multi=False": 250, "include_out_of_service": 250,
                              "nogobuses": 250, "notravbuses": 250, "index_subset": 300, "open_line_switch": 200,
@@ -31,7 +32,7 @@ FLOORS = {"quick": {"nontrivial": 350,
           "thorough": {"nontrivial": 10000, "tags": {"open_t3_switch": 2000, "notravbuses": 8000, "dcline": 4000, "reindexed": 3000},
                        "extras": {"graphs": 50000, "cc_checked": 30000, "dist_checked": 20000}, "max_skip_frac": 0.05}}
 RULE = ("one case = one netgen network (profiles multi_island / full_mix with random switching and in_service states, sometimes "
-        "re-indexed) x %d random option vectors of create_nxgraph (respect_switches, include_* as bool or index subset, "
+        "re-indexed) x 3 switching / in_service variants x %d random option vectors of create_nxgraph (respect_switches, include_* as bool or index subset, "
         "include_out_of_service, nogobuses, notravbuses, multi, trafo/switch lengths) + connected_components (with and without "
         "notravbuses) + calc_distance_to_bus from a random bus; non-trivial = the expected graph has an edge removed by a switch "
         "/ in_service / option rule and at least 2 components; distinct = digest of tables + option vectors" % GRAPHS_PER_CASE)
@@ -46,10 +47,13 @@ PROFILES = ["multi_island", "multi_island", "multi_island", "full_mix"]
 
 
 # ----------------------------------------------------------------------------------------------------------- reference model
-def _rows(tab, include):
-    if isinstance(include, bool):
-        return list(tab.index) if include else []
-    return [i for i in include]
+def _rows(tab, include, cols):
+    """(index, col values...) of the rows selected by an include_* option (bool or index list), in table / list order"""
+    idx = list(tab.index)
+    arr = [tab[c].values for c in cols]
+    pos = {i: k for k, i in enumerate(idx)}
+    sel = (idx if include else []) if isinstance(include, bool) else list(include)
+    return [(i,) + tuple(a[pos[i]] for a in arr) for i in sel]
 
 
 def expected_edges(net, o):
@@ -61,34 +65,28 @@ def expected_edges(net, o):
     open_t = {el for et, el, b in open_ if et == "t"}
     open_t3 = {(el, b) for et, el, b in open_ if et == "t3"}
     E = []
-    for i in _rows(net.line, o["include_lines"]):
-        r = net.line.loc[i]
-        if (r.in_service or ioos) and not (rs and i in open_l):
-            E.append((int(r.from_bus), int(r.to_bus), ("line", i), float(r.length_km)))
-    for i in _rows(net.impedance, o["include_impedances"]):
-        r = net.impedance.loc[i]
-        if r.in_service or ioos:
-            E.append((int(r.from_bus), int(r.to_bus), ("impedance", i), 0.))
-    for i in _rows(net.dcline, o["include_dclines"]):
-        r = net.dcline.loc[i]
-        if r.in_service or ioos:
-            E.append((int(r.from_bus), int(r.to_bus), ("dcline", i), 0.))
-    tl = o.get("trafo_length_km") or 0.
-    for i in _rows(net.trafo, o["include_trafos"]):
-        r = net.trafo.loc[i]
-        if (r.in_service or ioos) and not (rs and i in open_t):
-            E.append((int(r.hv_bus), int(r.lv_bus), ("trafo", i), float(tl)))
-    for f, t in (("hv", "mv"), ("hv", "lv"), ("mv", "lv")):
-        for i in _rows(net.trafo3w, o["include_trafo3ws"]):
-            r = net.trafo3w.loc[i]
-            u, v = int(r[f + "_bus"]), int(r[t + "_bus"])
-            if (r.in_service or ioos) and not (rs and ((i, u) in open_t3 or (i, v) in open_t3)):
-                E.append((u, v, ("trafo3w", i), float(tl)))
+    for i, fb, tb, ins, km in _rows(net.line, o["include_lines"], ["from_bus", "to_bus", "in_service", "length_km"]):
+        if (ins or ioos) and not (rs and i in open_l):
+            E.append((int(fb), int(tb), ("line", i), float(km)))
+    for tab, inc in (("impedance", "include_impedances"), ("dcline", "include_dclines")):
+        for i, fb, tb, ins in _rows(net[tab], o[inc], ["from_bus", "to_bus", "in_service"]):
+            if ins or ioos:
+                E.append((int(fb), int(tb), (tab, i), 0.))
+    tl = float(o.get("trafo_length_km") or 0.)
+    for i, hb, lb, ins in _rows(net.trafo, o["include_trafos"], ["hv_bus", "lv_bus", "in_service"]):
+        if (ins or ioos) and not (rs and i in open_t):
+            E.append((int(hb), int(lb), ("trafo", i), tl))
+    t3 = _rows(net.trafo3w, o["include_trafo3ws"], ["hv_bus", "mv_bus", "lv_bus", "in_service"])
+    for f, t in ((1, 2), (1, 3), (2, 3)):
+        for r in t3:
+            i, u, v = r[0], int(r[f]), int(r[t])
+            if (r[4] or ioos) and not (rs and ((i, u) in open_t3 or (i, v) in open_t3)):
+                E.append((u, v, ("trafo3w", i), tl))
     if o["include_switches"]:
-        sl = o.get("switch_length_km") or 0.
+        sl = float(o.get("switch_length_km") or 0.)
         for i, et, b, el, c in zip(sw.index, sw.et.values, sw.bus.values, sw.element.values, sw.closed.values):
             if et == "b" and (c or not rs):
-                E.append((int(b), int(el), ("switch", i), float(sl)))
+                E.append((int(b), int(el), ("switch", i), sl))
     return E
 
 
@@ -201,14 +199,23 @@ def classify_notrav(net, o, exc=None, dangling=None):
     notrav = set(o.get("notravbuses") or [])
     if not notrav or o["include_out_of_service"]:
         return None
-    oos = set(int(b) for b in net.bus.index[~net.bus.in_service.values]) - set(o.get("nogobuses") or [])
-    o2 = dict(o, include_out_of_service=True, notravbuses=None)
-    nodes, adj, _ = expected_graph(net, o2)
-    if exc is not None and isinstance(exc, KeyError) and exc.args:
-        # remove_node(n) of an out-of-service bus n (not notrav) with a graph edge to a notrav bus b fails with KeyError(n)
-        n = exc.args[0]
-        if n in oos - notrav and any(v in notrav for v, _, _ in adj.get(int(n), [])):
+    nogo = set(o.get("nogobuses") or [])
+    oos = set(int(b) for b in net.bus.index[~net.bus.in_service.values]) - nogo
+    nb = {}  # neighbourhood in the graph as built before the out-of-service buses are removed
+    for u, v, _, _ in expected_edges(net, o):
+        if u not in nogo and v not in nogo:
+            nb.setdefault(u, set()).add(v)
+            nb.setdefault(v, set()).add(u)
+    if exc is not None and isinstance(exc, KeyError) and exc.args and isinstance(exc.args[0], (int, np.integer)):
+        k = int(exc.args[0])
+        # remove_node(k) of an out-of-service bus k (not notrav) with a graph edge to a notrav bus fails with KeyError(k)
+        if k in oos - notrav and nb.get(k, set()) & notrav:
             return "notrav_neighbour_out_of_service_keyerror"
+        # an out-of-service notrav bus k was removed leaving dangling entries; removing an out-of-service neighbour of k then
+        # fails with KeyError(k); the same key is raised by graph searches that follow the dangling entry
+        if k in oos & notrav and nb.get(k) and (nb[k] & oos or dangling is not None):
+            return "notrav_bus_out_of_service_dangling_adjacency"
+        return None
     if dangling is not None:
         # every dangling target must be an out-of-service notrav bus
         if dangling and all(v in notrav and v in oos for v in dangling):
@@ -302,6 +309,17 @@ def reindex(net, g):
         net.switch.index = g.rng.permutation(len(net.switch)) + 3
 
 
+def perturb(net, g):
+    """cheap in-place change of the switching / in_service state (a new input for the same element tables)"""
+    if len(net.switch):
+        flip = g.rng.random(len(net.switch)) < 0.3
+        net.switch.loc[flip, "closed"] = ~net.switch.closed.values[flip]
+    for tab, p in (("bus", 0.1), ("line", 0.15), ("trafo", 0.15), ("trafo3w", 0.2), ("impedance", 0.3), ("dcline", 0.3)):
+        if len(net[tab]):
+            flip = g.rng.random(len(net[tab])) < p
+            net[tab].loc[flip, "in_service"] = ~net[tab].in_service.values[flip]
+
+
 def run_case(seed, tier, case_no):
     g = netgen.G(seed)
     profile = g.C(PROFILES)
@@ -322,124 +340,127 @@ def run_case(seed, tier, case_no):
                  partition_checked=0)
     optlist = []
     nontrivial = False
-    for _ in range(GRAPHS_PER_CASE):
-        o = rnd_options(g, net)
-        optlist.append(o)
-        kw = {k: v for k, v in o.items() if v is not None}
-        tags.add("respect_switches" if o["respect_switches"] else "ignore_switches")
-        for k in ("include_out_of_service", "nogobuses", "notravbuses", "calc_branch_impedances", "trafo_length_km", "switch_length_km"):
-            if o.get(k):
-                tags.add(k)
-        if not o["multi"]:
-            tags.add("multi=False")
-        if any(isinstance(o[k], list) for k in o if k.startswith("include_")):
-            tags.add("index_subset")
-        try:
-            mg = top.create_nxgraph(net, **kw)
-        except Exception as e:  # noqa
-            mech = classify_notrav(net, o, exc=e) or classify_impedance_subset(net, o, e)
-            viols.append(common.viol("create_nxgraph raised %r" % (e,), mechanism=mech, options=o))
-            evals += 1
-            continue
-        extra["graphs"] += 1
-        evals += 1
-        v, n_edges, nodes, adj = compare_graph(net, o, mg)
-        viols += v
-        extra["edges_expected"] += n_edges
-        n_all = len(expected_edges(net, dict(o, respect_switches=False, include_out_of_service=True, include_lines=True,
-                                            include_impedances=True, include_dclines=True, include_trafos=True,
-                                            include_trafo3ws=True, include_switches=True)))
-        pc = {}
-        for u_, v_, _, _ in expected_edges(net, o):
-            if u_ in nodes and v_ in nodes:
-                pc[frozenset((u_, v_))] = pc.get(frozenset((u_, v_)), 0) + 1
-        if pc and max(pc.values()) > 1:
-            tags.add("parallel_edges")
-        if v:
-            continue
-        # ---- connected_components: partition + union-find (graphs without the one-directional notrav edit)
-        if not o.get("notravbuses"):
-            comps = components(nodes, adj)
-            if n_edges < n_all and len(comps) >= 2:
-                nontrivial = True
+    for variant in range(N_VARIANTS):
+        if variant:
+            perturb(net, g)
+            tags |= net_tags(net)
+            optlist.append({"perturbed": common.net_digest(net)})
+        for _ in range(GRAPHS_PER_CASE):
+            o = rnd_options(g, net)
+            optlist.append(o)
+            kw = {k: v for k, v in o.items() if v is not None}
+            tags.add("respect_switches" if o["respect_switches"] else "ignore_switches")
+            for k in ("include_out_of_service", "nogobuses", "notravbuses", "calc_branch_impedances", "trafo_length_km", "switch_length_km"):
+                if o.get(k):
+                    tags.add(k)
+            if not o["multi"]:
+                tags.add("multi=False")
+            if any(isinstance(o[k], list) for k in o if k.startswith("include_")):
+                tags.add("index_subset")
             try:
-                got = [set(int(x) for x in c) for c in top.connected_components(mg)]
+                mg = top.create_nxgraph(net, **kw)
             except Exception as e:  # noqa
-                viols.append(common.viol("connected_components raised %r" % (e,), options=o))
-                continue
-            extra["cc_checked"] += 1
-            evals += 1
-            if sum(len(c) for c in got) != len(nodes) or set().union(*got) != nodes:
-                viols.append(common.viol("connected_components is not a partition of the node set: %d nodes, sizes %s" % (
-                    len(nodes), sorted(len(c) for c in got)), options=o))
-            elif sorted(map(sorted, got)) != sorted(map(sorted, comps)):
-                viols.append(common.viol("connected_components differs from union-find: got %s expected %s" % (
-                    sorted(map(sorted, got))[:6], sorted(map(sorted, comps))[:6]), options=o))
-            extra["partition_checked"] += 1
-            # notravbuses handed to the search instead of the graph constructor
-            nt = set(int(b) for b in g.rng.choice(sorted(nodes), size=min(len(nodes), g.I(1, 3)), replace=False)) if nodes else set()
-            if nt:
-                exp = []
-                for c in components(nodes, adj, skip=nt):
-                    exp.append(frozenset(c | {v for u in c for v, _, _ in adj[u] if v in nt}))
-                expset = set(exp) | {frozenset((u, v)) for u in nt for v, _, _ in adj[u] if v in nt and v != u}
-                try:
-                    got = [frozenset(int(x) for x in c) for c in top.connected_components(mg, notravbuses=set(nt))]
-                except Exception as e:  # noqa
-                    viols.append(common.viol("connected_components(notravbuses=%s) raised %r" % (sorted(nt), e), options=o))
-                    continue
-                extra["cc_notrav_checked"] += 1
+                mech = classify_notrav(net, o, exc=e) or classify_impedance_subset(net, o, e)
+                viols.append(common.viol("create_nxgraph raised %r" % (e,), mechanism=mech, options=o))
                 evals += 1
-                got_main = [c for c in got if not c <= nt]
-                if set(got) != expset or sorted(map(sorted, got_main)) != sorted(map(sorted, exp)):
-                    viols.append(common.viol("connected_components(notravbuses=%s) got %s expected %s" % (
-                        sorted(nt), sorted(map(sorted, set(got)))[:8], sorted(map(sorted, expset))[:8]), options=o, notrav_search=sorted(nt)))
-                src = int(g.C(sorted(nodes - nt))) if nodes - nt else None
-                if src is not None:
-                    e1 = next(c for c in exp if src in c)
-                    g1 = set(int(x) for x in top.connected_component(mg, src, notravbuses=nt))
-                    if g1 != set(e1):
-                        viols.append(common.viol("connected_component(bus=%d, notravbuses=%s) got %s expected %s" % (
-                            src, sorted(nt), sorted(g1), sorted(e1)), options=o))
-    # ---- calc_distance_to_bus (builds its own graph with default include_* options)
-    for _ in range(2):
-        o = dict(respect_switches=g.B(0.6), include_lines=True, include_impedances=True, include_dclines=True, include_trafos=True,
-                 include_trafo3ws=True, include_switches=True, include_out_of_service=False, multi=True)
-        buses = [int(b) for b in net.bus.index]
-        if g.B(0.4):
-            o["nogobuses"] = [int(b) for b in g.rng.choice(buses, size=g.I(1, 2), replace=False)]
-        if g.B(0.4):
-            o["notravbuses"] = [int(b) for b in g.rng.choice(buses, size=g.I(1, 2), replace=False) if b not in (o.get("nogobuses") or [])] or None
-        hops = g.B(0.3)
-        nodes, adj, n_edges = expected_graph(net, o)
-        if not nodes:
-            continue
-        src = int(g.C(sorted(nodes)))
-        optlist.append(dict(o, dist_from=src, hops=hops))
-        try:
-            ser = top.calc_distance_to_bus(net, src, respect_switches=o["respect_switches"], nogobuses=o.get("nogobuses"),
-                                           notravbuses=o.get("notravbuses"), weight=None if hops else "weight")
-        except Exception as e:  # noqa
-            mech = classify_notrav(net, o, exc=e)
-            if mech is None and isinstance(e, KeyError):
-                mech = classify_notrav(net, o, dangling=[int(e.args[0])] if e.args and isinstance(e.args[0], (int, np.integer)) else None)
-            viols.append(common.viol("calc_distance_to_bus(bus=%d) raised %r" % (src, e), mechanism=mech, options=o))
-            continue
-        evals += 1
-        extra["dist_checked"] += 1
-        extra["dist_notrav"] += bool(o.get("notravbuses"))
-        extra["dist_hops"] += bool(hops)
-        exp = dijkstra(adj, src, hops)
-        got = {int(k): float(v) for k, v in ser.items()}
-        if set(got) != set(exp):
-            viols.append(common.viol("calc_distance_to_bus(bus=%d): reached buses differ: missing %s unexpected %s" % (
-                src, sorted(set(exp) - set(got))[:8], sorted(set(got) - set(exp))[:8]), options=o, hops=hops))
-        else:
-            d = [(abs(got[k] - exp[k]), k) for k in exp]
-            if d and max(d)[0] > 1e-9:
-                k = max(d)[1]
-                viols.append(common.viol("calc_distance_to_bus(bus=%d): distance to bus %d is %.9g, shortest path is %.9g" % (
-                    src, k, got[k], exp[k]), options=o, hops=hops))
+                continue
+            extra["graphs"] += 1
+            evals += 1
+            v, n_edges, nodes, adj = compare_graph(net, o, mg)
+            viols += v
+            extra["edges_expected"] += n_edges
+            n_all = len(expected_edges(net, dict(o, respect_switches=False, include_out_of_service=True, include_lines=True,
+                                                include_impedances=True, include_dclines=True, include_trafos=True,
+                                                include_trafo3ws=True, include_switches=True)))
+            pc = {}
+            for u_, v_, _, _ in expected_edges(net, o):
+                if u_ in nodes and v_ in nodes:
+                    pc[frozenset((u_, v_))] = pc.get(frozenset((u_, v_)), 0) + 1
+            if pc and max(pc.values()) > 1:
+                tags.add("parallel_edges")
+            if v:
+                continue
+            # ---- connected_components: partition + union-find (graphs without the one-directional notrav edit)
+            if not o.get("notravbuses"):
+                comps = components(nodes, adj)
+                if n_edges < n_all and len(comps) >= 2:
+                    nontrivial = True
+                try:
+                    got = [set(int(x) for x in c) for c in top.connected_components(mg)]
+                except Exception as e:  # noqa
+                    viols.append(common.viol("connected_components raised %r" % (e,), options=o))
+                    continue
+                extra["cc_checked"] += 1
+                evals += 1
+                if sum(len(c) for c in got) != len(nodes) or set().union(*got) != nodes:
+                    viols.append(common.viol("connected_components is not a partition of the node set: %d nodes, sizes %s" % (
+                        len(nodes), sorted(len(c) for c in got)), options=o))
+                elif sorted(map(sorted, got)) != sorted(map(sorted, comps)):
+                    viols.append(common.viol("connected_components differs from union-find: got %s expected %s" % (
+                        sorted(map(sorted, got))[:6], sorted(map(sorted, comps))[:6]), options=o))
+                extra["partition_checked"] += 1
+                # notravbuses handed to the search instead of the graph constructor
+                nt = set(int(b) for b in g.rng.choice(sorted(nodes), size=min(len(nodes), g.I(1, 3)), replace=False)) if nodes else set()
+                if nt:
+                    exp = []
+                    for c in components(nodes, adj, skip=nt):
+                        exp.append(frozenset(c | {v for u in c for v, _, _ in adj[u] if v in nt}))
+                    expset = set(exp) | {frozenset((u, v)) for u in nt for v, _, _ in adj[u] if v in nt and v != u}
+                    try:
+                        got = [frozenset(int(x) for x in c) for c in top.connected_components(mg, notravbuses=set(nt))]
+                    except Exception as e:  # noqa
+                        viols.append(common.viol("connected_components(notravbuses=%s) raised %r" % (sorted(nt), e), options=o))
+                        continue
+                    extra["cc_notrav_checked"] += 1
+                    evals += 1
+                    got_main = [c for c in got if not c <= nt]
+                    if set(got) != expset or sorted(map(sorted, got_main)) != sorted(map(sorted, exp)):
+                        viols.append(common.viol("connected_components(notravbuses=%s) got %s expected %s" % (
+                            sorted(nt), sorted(map(sorted, set(got)))[:8], sorted(map(sorted, expset))[:8]), options=o, notrav_search=sorted(nt)))
+                    src = int(g.C(sorted(nodes - nt))) if nodes - nt else None
+                    if src is not None:
+                        e1 = next(c for c in exp if src in c)
+                        g1 = set(int(x) for x in top.connected_component(mg, src, notravbuses=nt))
+                        if g1 != set(e1):
+                            viols.append(common.viol("connected_component(bus=%d, notravbuses=%s) got %s expected %s" % (
+                                src, sorted(nt), sorted(g1), sorted(e1)), options=o))
+        # ---- calc_distance_to_bus (builds its own graph with default include_* options)
+        for _ in range(2):
+            o = dict(respect_switches=g.B(0.6), include_lines=True, include_impedances=True, include_dclines=True, include_trafos=True,
+                     include_trafo3ws=True, include_switches=True, include_out_of_service=False, multi=True)
+            buses = [int(b) for b in net.bus.index]
+            if g.B(0.4):
+                o["nogobuses"] = [int(b) for b in g.rng.choice(buses, size=g.I(1, 2), replace=False)]
+            if g.B(0.4):
+                o["notravbuses"] = [int(b) for b in g.rng.choice(buses, size=g.I(1, 2), replace=False) if b not in (o.get("nogobuses") or [])] or None
+            hops = g.B(0.3)
+            nodes, adj, n_edges = expected_graph(net, o)
+            if not nodes:
+                continue
+            src = int(g.C(sorted(nodes)))
+            optlist.append(dict(o, dist_from=src, hops=hops))
+            try:
+                ser = top.calc_distance_to_bus(net, src, respect_switches=o["respect_switches"], nogobuses=o.get("nogobuses"),
+                                               notravbuses=o.get("notravbuses"), weight=None if hops else "weight")
+            except Exception as e:  # noqa
+                mech = classify_notrav(net, o, exc=e, dangling=[])
+                viols.append(common.viol("calc_distance_to_bus(bus=%d) raised %r" % (src, e), mechanism=mech, options=o))
+                continue
+            evals += 1
+            extra["dist_checked"] += 1
+            extra["dist_notrav"] += bool(o.get("notravbuses"))
+            extra["dist_hops"] += bool(hops)
+            exp = dijkstra(adj, src, hops)
+            got = {int(k): float(v) for k, v in ser.items()}
+            if set(got) != set(exp):
+                viols.append(common.viol("calc_distance_to_bus(bus=%d): reached buses differ: missing %s unexpected %s" % (
+                    src, sorted(set(exp) - set(got))[:8], sorted(set(got) - set(exp))[:8]), options=o, hops=hops))
+            else:
+                d = [(abs(got[k] - exp[k]), k) for k in exp]
+                if d and max(d)[0] > 1e-9:
+                    k = max(d)[1]
+                    viols.append(common.viol("calc_distance_to_bus(bus=%d): distance to bus %d is %.9g, shortest path is %.9g" % (
+                        src, k, got[k], exp[k]), options=o, hops=hops))
     # one violation per mechanism / kind is enough as a witness
     seen, out = set(), []
     for v in viols:
